@@ -210,6 +210,13 @@ def S3(ctx):
     ctx.floor("S3", n, 5, "mutex release, rwlock unlock_threads, mpsc send, set_unparked, schedule")
 
 
+def _action_eq_atom(e, pol, act):
+    """the guard atom states `operation.action() == <act>`: `a == act` known true, or `a != act` known false"""
+    if e[0] != "call" or not mentions_call(e, "rt::object::Operation::action") or act not in canon(e):
+        return False
+    return (e[1].endswith("PartialEq::eq") and pol is True) or (e[1].endswith("PartialEq::ne") and pol is False)
+
+
 def S5(ctx):
     """Every set_blocked on a non-active thread is dominated by `operation.object() == self.state.erase()`,
     plus the action filter where the primitive has one."""
@@ -244,8 +251,7 @@ def S5(ctx):
                 act_ = want_action[rf]
                 found_ = False
                 for (e, pol, val, sb) in guard_atoms(body, s["bb"]):
-                    if e[0] == "call" and e[1].endswith("PartialEq::eq") and pol is True and \
-                            mentions_call(e, "rt::object::Operation::action") and act_ in canon(e):
+                    if _action_eq_atom(e, pol, act_):
                         found_ = True
                 if not found_:
                     ctx.bad("S5", rf, "blocking of other threads on the path of %s (in helper %s) is not restricted to pending `%s` operations" %
@@ -260,8 +266,7 @@ def S5(ctx):
         if act:
             found = False
             for (e, pol, val, sb) in guard_atoms(body, s["bb"]):
-                if e[0] == "call" and e[1].endswith("PartialEq::eq") and pol is True and \
-                        mentions_call(e, "rt::object::Operation::action") and act in canon(e):
+                if _action_eq_atom(e, pol, act):
                     found = True
             if not found:
                 ctx.bad("S5", anchor, "blocking of other threads is not restricted to pending `%s` operations" % act,
